@@ -28,6 +28,8 @@ EXTENDS Naturals, Sequences, FiniteSets
 CONSTANTS HDR,           \* length of the fixed header carrying the length fields
           Total(_),      \* total message length declared by a complete fixed header
           TooLarge(_),   \* TRUE iff the declared total exceeds the maximum message size
+          Skip(_),       \* TRUE iff the fixed header has a message type unknown to this version: the message is read
+                         \* completely and dropped with the fds that travelled with it (C13); `sent` does not list it
           devs           \* set of enabled deviations
 
 VARIABLES
@@ -157,8 +159,9 @@ AssignFds ==
 
 Deliver ==
   /\ phase = "deliver"
-  /\ out' = Append(out, [bytes |-> buf, fds |-> msgFds, seq |-> seq + 1])
-  /\ seq' = seq + 1
+  /\ IF Skip(buf) THEN UNCHANGED <<out, seq>>
+     ELSE /\ out' = Append(out, [bytes |-> buf, fds |-> msgFds, seq |-> seq + 1])
+          /\ seq' = seq + 1
   /\ base' = base + total
   /\ phase' = "hdr"
   /\ UNCHANGED <<env, rd, hsOver, left, leftFds, buf, gotFds, msgFds, total, status>>
